@@ -57,7 +57,6 @@ pub enum Coding {
 impl Coding {
     pub const ALL: [Coding; 5] =
         [Coding::Identity, Coding::Gzip, Coding::Deflate, Coding::Br, Coding::Zstd];
-    pub const CODED: [Coding; 4] = [Coding::Gzip, Coding::Deflate, Coding::Br, Coding::Zstd];
 
     pub fn token(self) -> &'static str {
         match self {
@@ -402,6 +401,7 @@ fn stall_secs() -> u64 {
 // the blocking pool enabled); work items are taken from a shared counter.
 
 pub struct Feed<'a, O> {
+    deadline: Option<std::time::Instant>,
     next: &'a AtomicUsize,
     order: &'a [usize],
     results: &'a Mutex<Vec<Option<O>>>,
@@ -409,6 +409,11 @@ pub struct Feed<'a, O> {
 
 impl<O> Feed<'_, O> {
     pub fn next(&self) -> Option<usize> {
+        if let Some(d) = self.deadline {
+            if std::time::Instant::now() >= d {
+                return None; // wall cap: the remaining cases stay unexecuted (reported as capped)
+            }
+        }
         let k = self.next.fetch_add(1, Ordering::SeqCst);
         self.order.get(k).copied()
     }
@@ -418,14 +423,19 @@ impl<O> Feed<'_, O> {
 }
 
 /// `worker` is run on every thread; it builds its own runtime and loops `feed.next()`.
-pub fn run_pool<O: Send>(n_cases: usize, order: &[usize], worker: impl Fn(&Feed<'_, O>) + Sync) -> Vec<Option<O>> {
+pub fn run_pool<O: Send>(
+    n_cases: usize,
+    order: &[usize],
+    deadline: Option<std::time::Instant>,
+    worker: impl Fn(&Feed<'_, O>) + Sync,
+) -> Vec<Option<O>> {
     let n = mc_core::cli::threads();
     let next = AtomicUsize::new(0);
     let results: Mutex<Vec<Option<O>>> = Mutex::new((0..n_cases).map(|_| None).collect());
     std::thread::scope(|scope| {
         for _ in 0..n {
             scope.spawn(|| {
-                let feed = Feed { next: &next, order, results: &results };
+                let feed = Feed { deadline, next: &next, order, results: &results };
                 worker(&feed);
             });
         }
